@@ -741,8 +741,12 @@ def run_queue_case(env, case):
         live.feed(live.wire('req', j))
     env.idle()
     started = {e[1] for e in live.starts()}
+    stats = dict(refused=0, skipped=0)
     if started != set(range(n)):
-        fail('c14:queue-setup', f'expected exactly the {n} holders to run, got {sorted(started)}')
+        # not the situation this scenario is about (judged by the other scenarios)
+        stats['skipped'] = 1
+        live.close()
+        return key, why, stats
     nout = len(tr.out)
     t_cross = env.loop.time()
     first_leaver = case['which'] if route == 'holder' else 0
@@ -764,7 +768,9 @@ def run_queue_case(env, case):
     env.idle()
     limit = live.lim.max_concurrent
     ev = s.cost + s._extra
-    stats = dict(refused=0)
+    if ev >= cfg['hard'] + 1e-6 * max(1.0, ev) and limit != 0:
+        fail('c14:past-hard', f'evaluated cost {ev} >= hard {cfg["hard"]} (pushed there via {route}) but the '
+                              f'permitted concurrency is {limit}, not 0')
     if limit == 0 and ev >= cfg['hard'] - 1e-6:
         # the evaluated cost has reached the hard limit: let the handlers finish, oldest first
         for i in range(n):
@@ -800,7 +806,7 @@ def run_queue_case(env, case):
                      f'{what}: request(s) {[v.get("id") for v in busy]} got -102 (timed out waiting for a slot)')
             stats['refused'] = 1 if live.hooks() else 0
     else:
-        fail('c14:queue-setup', f'route {route} did not bring the limit to 0 (limit {limit}, evaluated {ev})')
+        stats['skipped'] = 1      # the route did not push the cost past the hard limit
     live.close()
     return key, why, stats
 
@@ -834,6 +840,7 @@ def evaluate_queue(ctx, res, cases):
         res.count('queue_cases_route_' + case.get('route', 'holder'))
         res.count('queue_cases_message_session', case.get('kind') == 'msg')
         res.count('queued_requests_refused_101', stats['refused'])
+        res.count('queue_cases_skipped', stats.get('skipped', 0))
         if stats['refused']:
             res.nontrivial(json.dumps(c, sort_keys=True))
 
@@ -863,12 +870,14 @@ def run_admit_delay_case(env, case):
     live.hold(0)
     env.advance(cfg['sleep'] + 1)
     if not live.starts(0):
-        fail('c14:queue-setup', 'holder did not start')
+        live.close()
+        return key, why, dict(delay=0.0, skipped=1)
     set_fraction(case['f0'])
     live.feed(live.wire('req', 1))
     env.advance(case['wait'])
     if live.starts(1):
-        fail('c14:queue-setup', 'request 1 started although the only slot is taken')
+        fail('c14:concurrency-above-permitted', 'a second request was executed although the only slot '
+                                                '(initial_concurrent 1) is taken')
     set_fraction(case['f1'])
     t1 = env.loop.time()
     live.release(0, None)
